@@ -1,6 +1,8 @@
 package binary
 
 import (
+	"io"
+
 	"github.com/cloudwego/dynamicgo/proto"
 	"github.com/cloudwego/dynamicgo/proto/protowire"
 )
@@ -20,9 +22,13 @@ func (p *BinaryProtocol) SkipBytesType() (int, error) {
 	if n < 0 {
 		return n, errDecodeField
 	}
+	// the length is an arbitrary uint64: compare it against the bytes left before converting it
+	if v > uint64(len(p.Buf)-p.Read-n) {
+		return n, io.EOF
+	}
 	all := int(v) + n
-	_, err := p.next(all)
-	return all, err
+	p.Read += all
+	return all, nil
 }
 
 // skip (L)V once by wireType, useNative is not implemented
